@@ -21,7 +21,7 @@
 """Signal block."""
 
 from beartype.typing import Any, Dict
-from serde import serde, strict, to_dict
+from serde import serde, strict, to_dict, field
 
 from .metadata import MetaData
 
@@ -32,7 +32,7 @@ class SignalBlock:
 
     name: str
     fields: Dict[str, Any]
-    meta: MetaData
+    meta: MetaData = field(skip=True)
 
     def __init__(self, name: str, fields: Dict[str, Any], meta: MetaData) -> None:
         self.name = name
